@@ -145,7 +145,35 @@ def vec_key(v):
     return hashlib.sha256(json.dumps(v, sort_keys=True).encode()).hexdigest()[:16]
 
 
-def replay(vectors, name, tables, groups="G1,G2", profiles="5", build="release", feature="blst", timeout=3000):
+CHECKED_SAMPLE = {"quick": 1200, "thorough": 20000}
+_checked_built = [False]
+
+
+def replay(vectors, name, tables, groups="G1,G2", profiles="5", build="release", feature="blst", timeout=3000, also_checked=True):
+    """replay on the real library.  A release/blst replay is followed by a replay of an evenly spaced sample of the
+    same vectors on the `checked` build (overflow checks + debug assertions): the properties quantify over inputs,
+    not over build profiles, and `cargo test` itself runs a debug profile."""
+    summ = _replay_one(vectors, name, tables, groups, profiles, build, feature, timeout)
+    if also_checked and build == "release" and feature == "blst" and not os.environ.get("VERIF_NO_CHECKED") and vectors:
+        cap = CHECKED_SAMPLE.get(os.environ.get("VERIF_TIER_NOW", "quick"), 1200)
+        step = max(1, len(vectors) // cap)
+        sample = vectors[::step]
+        if not _checked_built[0]:
+            build_harness("checked")
+            _checked_built[0] = True
+        first_profile = profiles.split(",")[0]
+        c = _replay_one(sample, name + "_checked", tables, groups, first_profile, "checked", feature, timeout)
+        for f in c["failures"]:
+            f["build"] = "checked"
+            f["why"] = "[build with overflow checks and debug assertions] " + f.get("why", "")
+        summ["failures"] = summ["failures"] + c["failures"]
+        summ["failed"] += c["failed"]
+        summ["checked"] = {"vectors": c["vectors"], "executions": c["executions"], "derived_executions": c["derived_executions"], "failed": c["failed"], "wall": c["wall"]}
+        summ["wall"] += c["wall"]
+    return summ
+
+
+def _replay_one(vectors, name, tables, groups="G1,G2", profiles="5", build="release", feature="blst", timeout=3000):
     os.makedirs(WORK, exist_ok=True)
     vp = os.path.join(WORK, name + ".vectors.ndjson")
     op = os.path.join(WORK, name + ".replay.json")
@@ -342,6 +370,13 @@ class Run:
         self.stages.append({"stage": "replay", "what": label, "vectors": s["vectors"], "executions": s["executions"],
                             "derived_executions": s["derived_executions"], "failed": s["failed"], "groups": s["groups"],
                             "profiles": s["profiles"], "wall_s": round(s["wall"], 1)})
+        if "checked" in s:
+            c = s["checked"]
+            self.executions += c["executions"]
+            self.derived += c["derived_executions"]
+            self.stages.append({"stage": "replay", "what": label + " - evenly spaced sample on the build with overflow checks and debug assertions",
+                                "vectors": c["vectors"], "executions": c["executions"], "derived_executions": c["derived_executions"], "failed": c["failed"],
+                                "wall_s": round(c["wall"], 1)})
         for f in s["failures"]:
             self.violations.append(("replay", f))
 
@@ -465,6 +500,7 @@ def main():
         if prop not in CHECKS:
             log("no check for " + prop)
             return 2
+        os.environ["VERIF_TIER_NOW"] = tier
         run = Run(prop, tier)
         return CHECKS[prop](run, sys.modules[__name__])
     except ToolError as e:
@@ -481,7 +517,9 @@ def replay_file(prop, path):
         return 1
     build_harness()
     tables, _ = export_tables()
-    s = replay([r["vector"]], "replay_" + prop, tables, groups=r["group"], profiles=str(r["atom_len"]))
+    if r.get("build") == "checked":
+        build_harness("checked")
+    s = replay([r["vector"]], "replay_" + prop, tables, groups=r["group"], profiles=str(r["atom_len"]), build=r.get("build", "release"))
     log(json.dumps(s["failures"], indent=1))
     if s["failed"]:
         log("VIOLATION property=%s replay=%s" % (prop, path))
